@@ -210,3 +210,56 @@ func genEnv(r *core.Rand, today ref.Date) MEnv {
 	}
 	return env
 }
+
+// genLikelyCommand biases towards commands that succeed on the given state (closing / switching / pausing an existing open range).
+func genLikelyCommand(r *core.Rand, doc *ref.Doc, env MEnv, allowPause bool) MCmd {
+	var open []int
+	for i := range doc.Recs {
+		if doc.Recs[i].OpenIndex() >= 0 {
+			open = append(open, i)
+		}
+	}
+	if len(open) == 0 || r.Chance(1, 2) {
+		return genCommand(r, doc, env, allowPause)
+	}
+	rec := &doc.Recs[open[r.Intn(len(open))]]
+	start := rec.Entries[rec.OpenIndex()].Start.Off
+	var c MCmd
+	c.Kind = r.Pick("stop", "stop", "switch")
+	isToday := rec.Date == env.Today
+	isYesterday := rec.Date == env.Today.Plus(-1)
+	if allowPause && (isToday || isYesterday) && r.Chance(1, 3) {
+		c = genCommand(r, doc, env, true)
+		for k := 0; k < 20 && c.Kind != "pause"; k++ {
+			c = genCommand(r, doc, env, true)
+		}
+		if c.Kind == "pause" {
+			return c
+		}
+		c = MCmd{Kind: "stop"}
+	}
+	d := rec.Date
+	if !(isToday && r.Bool()) {
+		c.Date = &d
+	}
+	if !(isToday && r.Chance(1, 3)) {
+		end := start + r.PickInt(0, 1, 30, 61, 240, 600)
+		if end > 2879 {
+			end = 2879
+		}
+		t := ref.TimeV{Off: end, H12: r.Chance(1, 4)}
+		c.Time = &t
+		c.TimeText = gen.SpellTime(r, t)
+	}
+	if c.Kind == "stop" {
+		if r.Chance(1, 2) {
+			c.Summary = mSummary(r, true)
+		}
+	} else {
+		genSummaryArgs(r, &c)
+		if c.Summary != nil && c.Resume {
+			c.Resume = false
+		}
+	}
+	return c
+}
